@@ -1,5 +1,5 @@
 (* C01 - CTAP2 request decoding is faithful to the specification's parameter tables. *)
-From Ctap Require Import Base Schema Wire Utf8 Typed Procs Inst Tables ProcTables Finite CborItem WireP SkipP TypedP EntriesP FramingP C11P WellTyped SerP RoundTripP ObRequestSide ObOpTables ObEnvRt FnShapes Shapes ObShapeRequest.
+From Ctap Require Import Base Schema Wire Utf8 Typed Procs Inst Tables ProcTables Finite CborItem WireP SkipP TypedP EntriesP FramingP C11P WellTyped SerP RoundTripP ObRequestSide ObOpTables ObEnvRt AgreeP ObRequestAgree FnShapes Shapes ObShapeRequest.
 Local Open Scope string_scope.
 Local Open Scope Z_scope.
 
@@ -94,6 +94,28 @@ Proof.
   reflexivity.
 Qed.
 
+(* THE MODEL AT THE REGENERATED DECLARATIONS IS THE MODEL AT THE SPECIFICATION TABLES.  The codec consults an
+   environment only through the declarations reachable from the type at hand (AgreeP.dec_agree, by induction
+   over the codec incl. all element loops).  On the names a request can reach - a set closed under "refers
+   to" - the declarations regenerated from /repo are the specification's (kernel-evaluated for all 32 feature
+   sets on every run), as are the command routing and the error-status tables.  Hence, for EVERY message,
+   ctap2::Request::deserialize modelled at the regenerated source equals the one modelled at the
+   specification tables: every theorem and every differential observation about either is about both. *)
+Theorem c01_generated_agreement :
+  forallb (fun f => agreement_bundle spec_tables (gen_tables f) (spec_env f) (gen_env f) (request_names f) spec_route) all_feats = true.
+Proof. exact generated_request_agreement. Qed.
+
+Theorem c01_generated_model_is_spec_model : forall f d, In f all_feats ->
+  (match d with b :: _ => 0 <= b < 256 | [] => True end) ->
+  request_deserialize (gen_tables f) (gen_env f) d = request_deserialize spec_tables (spec_env f) d.
+Proof.
+  intros f d Hf Hd. symmetry.
+  exact (request_models_agree spec_tables (gen_tables f) (spec_env f) (gen_env f) (request_names f) spec_route
+           route_of_spec (fun b Hb => generated_route f b Hf Hb)
+           (forallb_In (fun f => agreement_bundle spec_tables (gen_tables f) (spec_env f) (gen_env f) (request_names f) spec_route)
+                       all_feats f generated_request_agreement Hf) d Hd).
+Qed.
+
 (* non-vacuity: a LargeBlobs request {3: 0, 1: 7} (keys out of order) satisfies the hypotheses *)
 Example c01_ex_large_blobs :
   decode (spec_env []) (TNamed "ctap2::large_blobs::Request") [0xA2; 0x03; 0x00; 0x01; 0x07]
@@ -116,3 +138,5 @@ Eval vm_compute in "ASSUMPTIONS c01_request_faithful". Print Assumptions c01_req
 Eval vm_compute in "ASSUMPTIONS c01_generated_request_faithful". Print Assumptions c01_generated_request_faithful.
 Eval vm_compute in "ASSUMPTIONS c01_spec_declarations_wellformed". Print Assumptions c01_spec_declarations_wellformed.
 Eval vm_compute in "ASSUMPTIONS c01_modelled_functions_unchanged_request". Print Assumptions c01_modelled_functions_unchanged_request.
+Eval vm_compute in "ASSUMPTIONS c01_generated_agreement". Print Assumptions c01_generated_agreement.
+Eval vm_compute in "ASSUMPTIONS c01_generated_model_is_spec_model". Print Assumptions c01_generated_model_is_spec_model.
